@@ -68,7 +68,7 @@ def run(ctx):
     out = C.run_lines_parallel(ctx.harness, lines, timeout=3000)
     bad, skipped, nontrivial = [], 0, 0
     for line, label, o in zip(lines, labels, out):
-        if o in ("load-failed", "unknown-type", "save-failed", "no-shape") and (" synth:" in line):
+        if o.startswith("unloadable-synth"):
             skipped += 1
             continue
         if not o.startswith("sizes="):
